@@ -26,7 +26,16 @@ Den(type, t) ==
 HasDen(type) == type \notin {"float", "geo", "binary"}
 Classified(type) == type \in {"date", "time", "date-time", "duration", "period"}
 
+\* calls observed while the repository's own test-suite runs (vf/suitetrace.py): every text a codec emitted is
+\* in the grammar of its type and denotes the value; every RFC text a codec read was read as what it denotes
+SuiteEval(e) ==
+    IF e.k = "senc"
+    THEN /\ R(InG(e.type, e.text), "P:C03:enc-grammar-" \o e.type)
+         /\ IF HasDen(e.type) /\ InG(e.type, e.text) THEN R(Den(e.type, e.text) = e.v, "P:C03:enc-denotation-" \o e.type) ELSE TRUE
+    ELSE IF HasDen(e.type) /\ InG(e.type, e.text) THEN R(e.back = Den(e.type, e.text), "P:C03:dec-denotation-" \o e.type) ELSE TRUE
+
 Eval(e) ==
+  IF e.k \in {"senc", "sdec"} THEN SuiteEval(e) ELSE
     /\ R(InG(e.type, e.text), "P:C03:" \o e.k \o "-grammar-" \o e.type)
     /\ IF e.type = "binary" THEN R(e.text = Enc64(e.v), "P:C03:binary-base64")
        ELSE IF HasDen(e.type) /\ InG(e.type, e.text) THEN R(Den(e.type, e.text) = e.v, "P:C03:" \o e.k \o "-denotation-" \o e.type)
